@@ -598,16 +598,27 @@ fn history(r: &mut Report, args: &Args, idx: u64, seed: u64) {
             return
         }
         // (b) crash here, restart, one more publication must go through
-        for realisation in ["crash", "eio"] {
-            if realisation == "crash" {
+        // "torn": the failing mutation is the creation of a file about to be
+        // written and leaves it behind EMPTY (the write was torn right after
+        // the file came into existence); "crash-torn": the process died at
+        // that instant. Only for cuts that create a file.
+        let creates_file = m.kind == "fs" && m.op == "create_file";
+        for realisation in ["crash", "eio", "torn", "crash-torn"] {
+            if realisation.contains("torn") && !creates_file { continue }
+            if realisation.starts_with("crash") {
                 hooks::restore_dir(&cut_dir.join("data"), &data);
                 hooks::restore_dir(&cut_dir.join("repo"), &repo);
+                if realisation == "crash-torn" {
+                    let p = std::path::Path::new(&m.place);
+                    if let Some(d) = p.parent() { let _ = std::fs::create_dir_all(d); }
+                    let _ = std::fs::write(p, b"");
+                }
             } else {
                 hooks::restore_dir(&pre.join("data"), &data);
                 hooks::restore_dir(&pre.join("repo"), &repo);
             }
             let w2 = World::open_raw(cfg.clone());
-            if realisation == "crash" {
+            if realisation.starts_with("crash") {
                 // the server's own state is never behind what it served
                 if let (Ok(disk), Ok(stats)) = (
                     rrdpview::read_rrdp(&repo),
@@ -633,9 +644,10 @@ fn history(r: &mut Report, args: &Args, idx: u64, seed: u64) {
                 counter: counter_before + 1000,
             };
             let mut c2 = c.clone();
-            if realisation == "eio" {
+            if realisation == "eio" || realisation == "torn" {
                 c2 = client.clone();
-                hooks::begin(None, Some(m.n), None);
+                if realisation == "torn" { hooks::begin_torn(m.n) }
+                else { hooks::begin(None, Some(m.n), None) }
                 let res = final_op(&mut srv2);
                 let (_, injected) = hooks::end();
                 r.count("eio_runs", 1);
